@@ -215,10 +215,10 @@ impl Types {
             }
             MemberKind::Int(n) => {
                 let value = permissive::deserialize::<I256, _>(value)?;
-                ensure!(
-                    value.unsigned_abs().leading_zeros() + n >= 256,
-                    "value {value:#x} overflows int{n}",
-                );
+                // NOTE: A two's complement `intN` value has at least `256 - N + 1`
+                // copies of its sign bit when sign-extended to 256 bits.
+                let sign_bits = value.leading_zeros().max(value.leading_ones());
+                ensure!(sign_bits + n > 256, "value {value:#x} overflows int{n}");
                 value.to_be_bytes()
             }
             MemberKind::Bool => match bool::deserialize(value)? {
